@@ -99,4 +99,6 @@ def run(ctx):
     ns = len(suites)
     rep.floor('R01.1', 'honest MAC comparisons established', n_mac, 3 * 8 * ns)
     rep.floor('R01.2', 'agreeing keys', n_keys, 3 * 8 * ns)
+    from rules import profile
+    profile.check(ctx, rep, 'R01.P', ['creg_start', 'creg_finish', 'sreg_start', 'clog_start', 'clog_finish', 'slog_start', 'slog_finish'])
     return rep
